@@ -3,7 +3,7 @@
 #   tools/with_tree.sh commit <rev> -- ./check C01 --no-selftest
 #   tools/with_tree.sh patch <file.diff> -- ./check C01 --no-selftest
 set -u
-mode=$1; arg=$2; shift 3
+mode=$1; arg=$2; [ "$mode" = patch ] && arg=$(realpath "$arg"); shift 3
 d=$(mktemp -d /tmp/j1939tree.XXXXXX)
 if [ "$mode" = commit ]; then
   git -C /repo archive "$arg" | tar -x -C "$d"
@@ -11,7 +11,7 @@ else
   git -C /repo archive HEAD | tar -x -C "$d"
   # include uncommitted edits of /repo's working tree too
   (cd /repo && git diff HEAD) | (cd "$d" && patch -p1 -s >/dev/null 2>&1 || true)
-  (cd "$d" && patch -p1 -s < "$arg") || { echo "patch failed"; rm -rf "$d"; exit 3; }
+  (cd "$d" && patch -p1 -s < "$(realpath "$arg")") || { echo "patch failed"; rm -rf "$d"; exit 3; }
 fi
 mkdir -p /tmp/j1939scratch_out
 VERIF_REPO="$d" VERIF_EVIDENCE_DIR=/tmp/j1939scratch_out VERIF_REPLAY_DIR=/tmp/j1939scratch_out "$@"
